@@ -141,7 +141,7 @@ CHECKS["C10"] = {
     "streams": [
         {"name": "desugar", "quick_n": 6000, "thorough_n": 50000,
          "oracles": ["desugar-core", "desugar-idempotent", "desugar-idempotent-group-member", "desugar-mutates-input", "desugar-order", "desugar-shape", "process-crash"]},
-        EVAL(2500, 30000, oracles_only=True, oracles=["desugar-aliases-input"]),
+        EVAL(2500, 30000, oracles_only=True, oracles=["desugar-aliases-input", "sugar-differs-from-call"]),
     ],
     "explanation": "Over the model of trans.Desugar, proved: the result contains only core forms, for every input (C10.core, core_go), desugaring is idempotent on every tree without a parenthesised member callee (idem_partial; the kernel-checked not_idempotent witness (o.f)(x) is finding D18), the five rewriting equations hold and notation equals the explicit call for every downstream function (shape_*, notation_*, same_downstream), receiver and arguments keep their order (args_order, pairs_order, fields_order), core trees are fixed up to erased attachments (core_fixed); type and value of sugar are those of its desugaring because the pipeline has no other semantics for it. Tie: desugar stream on every tree the parse stream accepted plus hand-built ones; oracles for core-only, idempotence, input purity (tree serialised before/after) and order against an independent rule-based reference.",
     "assumptions": [],
